@@ -7,7 +7,7 @@
 From Coq Require Import List NArith Bool Arith.
 From TT Require Import Lib.BytesL Model.Forwarded Generated.ForwardedFacts Proofs.ForwardedProofs Model.H3Stream Proofs.H3StreamProofs.
 From TT Require Import Generated.Http1Facts Model.Http1Wire Spec.Rfc9112 Proofs.Http1WireProofs.
-From TT Require Import Model.HopByHop Proofs.HopByHopProofs.
+From TT Require Import Model.HopByHop Proofs.HopByHopProofs Model.FwdRequest Proofs.FwdRequestProofs.
 Import ListNotations.
 Local Open Scope nat_scope.
 
@@ -122,24 +122,36 @@ Example ex_fin_first_loses_the_response :
   /\ delivered (h3run true true [ClientFin; Respond 200; Respond 1]) = [200%N; 1%N].
 Proof. repeat split; reflexivity. Qed.
 
-(* the request head written towards the origin (encode_request): for every method and target without blank or line break,
-   every authority and header list as the http crate holds them, the bytes are read back under the RFC 9112 grammar as exactly
-   that method, target, version and header list - the authority first, as the Host field - and the reading ends where the
-   body starts *)
-Theorem origin_request_head_is_well_formed :
-  (forall method target minor hs rest,
-     (minor < 10)%N -> no_byte 32 method = true -> no_cr method = true -> no_byte 32 target = true -> no_cr target = true ->
-     forallb hdr_ok hs = true ->
-     read_request (S (length hs)) (enc_request method target minor None hs ++ rest) =
-     Some ({| rq_method := method; rq_target := target; rq_minor := minor;
-              rq_headers := map (fun h => (fst h, trim_ows (snd h))) hs |}, rest))
-  /\ (forall method target minor host hs,
-        enc_request method target minor (Some host) hs = enc_request method target minor None (([72; 111; 115; 116]%N, host) :: hs))
-  /\ HTTP1_HEAD_WRITERS_AS_MODELLED = true.
-Proof.
-  split; [exact request_round_trip_proof|]. split; [exact request_with_host_proof|exact eq_refl].
-Qed.
-Print Assumptions origin_request_head_is_well_formed.
+(* "forwarded to its target host as an equivalent HTTP/1.1 request (same method, path and headers minus proxy hop-by-hop ones)":
+   whenever serialize_request accepts a request - any method and target without blank or line break, any authority and field list
+   as the http crate holds them - the bytes it writes are read back under the RFC 9112 grammar (Spec/Rfc9112.v) as exactly that
+   method, target (or * for OPTIONS) and version, with the fields of the request minus Proxy-Authorization and Proxy-Connection,
+   the Host field naming the request's authority (in place if the client sent one, else last), and the reading ends exactly where
+   the body starts *)
+Theorem forwarded_request_head_is_equivalent :
+  forall method target minor mx authority hs bytes fr rest,
+    ser_request method target minor mx authority hs = Some (bytes, fr) ->
+    (minor < 10)%N -> no_byte 32 method = true -> no_cr method = true -> no_byte 32 target = true -> no_cr target = true ->
+    no_cr authority = true -> forallb hdr_ok hs = true ->
+    read_request (S (length (fwd_fields authority hs))) (bytes ++ rest) =
+    Some ({| rq_method := method; rq_target := if seqb method n_options then [42]%N else target; rq_minor := minor;
+             rq_headers := map (fun h => (fst h, trim_ows (snd h))) (fwd_fields authority hs) |}, rest).
+Proof. exact forwarded_request_round_trip_proof. Qed.
+Print Assumptions forwarded_request_head_is_equivalent.
+
+(* GET /p with Proxy-Authorization, a Host the client chose and Accept, for the authority o.test: accepted, Host rewritten in
+   place, no body; a second Host field or a second Content-Length is refused *)
+Example ex_forwarded_request :
+  let get := [71; 69; 84]%N in let p := [47; 112]%N in let o := [111; 46; 116; 101; 115; 116]%N in
+  let acc := ([97; 99; 99; 101; 112; 116], [42; 47; 42])%N in
+  (exists bytes, ser_request get p 1 false o [(n_pauth, [120]%N); (n_host, [122]%N); acc] = Some (bytes, Det 0)
+                 /\ read_request 3 bytes = Some ({| rq_method := get; rq_target := p; rq_minor := 1;
+                                                    rq_headers := [(n_host, o); acc] |}, []))
+  /\ ser_request get p 1 false o [(n_host, [122]%N); (n_host, [122]%N)] = None
+  /\ ser_request get p 1 false o [(n_clen, [53]%N); (n_clen, [53]%N)] = None
+  /\ (exists bytes, ser_request get p 1 true o [acc] = Some (bytes, Chunked)).
+Proof. vm_compute. split; [eexists; split; reflexivity|]. repeat split. eexists. reflexivity. Qed.
+
 
 (* "headers minus hop-by-hop ones": for every list of response fields, in whatever order the origin sent them, the fields
    handed on to the client are exactly the end-to-end ones, in the origin's order - Connection, the fields any Connection field
@@ -164,7 +176,8 @@ Theorem code_facts :
   FWD_CHUNK_DATA_COUNTS_ACCEPTED_AND_KEEPS_STATE = true /\ FWD_NON_ENCODED_COUNTS_ACCEPTED = true
   /\ FWD_CHUNK_PREFIX_AS_MODELLED = true /\ FWD_CHUNK_SUFFIX_AS_MODELLED = true
   /\ FWD_INTERIM_TAIL_IS_PARSER_LEFTOVER = true /\ FWD_BODY_MODE_SELECTION_AS_MODELLED = true
-  /\ H3_REQUEST_END_KEEPS_RESPONSE_DIRECTION = true /\ H3_SINK_WRITE_AS_MODELLED = true.
+  /\ H3_REQUEST_END_KEEPS_RESPONSE_DIRECTION = true /\ H3_SINK_WRITE_AS_MODELLED = true
+  /\ FWD_HOP_BY_HOP_WHEREVER_THEY_STAND = true /\ FWD_SERIALIZE_REQUEST_AS_MODELLED = true.
 Proof. repeat split; exact eq_refl. Qed.
 Print Assumptions code_facts.
 
